@@ -5,7 +5,7 @@ from ..sampler_rules import rule_L1_sampler, rule_L2_move, rule_L3_L4, rule_M7
 from ..agree import rule_A5, rule_Q3
 from ..effects import rule_F6, rule_F7
 from ..pathrules import rule_T8i
-from ..persist import rule_P4_sampler
+from ..persist import rule_P4_sampler_subset
 
 LEVEL_TEXT = ('Static membership-fact and lockstep rules on the three Sampler functions that '
               'create, move and store rows: fresh proposals are excluded from every later bound '
@@ -33,7 +33,9 @@ def run(ctx):
     rule_F6(ctx)
     # histories with resumes: the file pairs points_<i> with bound_<i> only if every change
     # of the shell numbering is followed by a full write
-    rule_P4_sampler(ctx)
+    rule_P4_sampler_subset(ctx, ('points', 'bound', 'shell_t', 'pop_shell', 'add_bound',
+                                 'first-batch', 'update-shell', 'batch-checkpointed'),
+                           'points, bounds and the transfer set')
     ctx.floor('M4', 5, 'exclusion obligations')
     ctx.floor('M5', 7, 'split obligations')
     ctx.floor('A5', 6, 'transfer pairing obligations')
